@@ -178,7 +178,8 @@ def run(ctx):
                 "f32/f64, several layouts and calling forms, with all k in 0..n+1 and radii on / between / beyond the attained "
                 "distances; non-trivial = n >= 2 and at least one tree session whose leaf size is < n (tree with >= 2 nodes); "
                 "distinct by (points, query, metric)")
-    ctx.trusted = ["TLC + CommunityModules Json", "harness encoding of results (harness/src/bin/c07.rs)",
+    ctx.trusted = ["TLC + CommunityModules Json", "harness encoding of results and parsing of BallTreeIndex's Debug output "
+                   "(harness/src/bin/c07.rs)",
                    "exactness of f32/f64 sums, squares and maxima of small integers and of dyadic radii"]
     ctx.assumptions = ["inputs are integer lattice points and radii are multiples of 1/8, so L1/L2/Linf comparisons are exact in "
                        "f32 and f64; for LpDist (p-th root) a point exactly on the radius is left undecided",
